@@ -539,3 +539,115 @@ Proof.
           rewrite <- Nb. symmetry. unfold all_blank. revert E. apply forallb_impl. intros c. unfold blank_char, space_separator. lia. }
         rewrite H0. rewrite !andb_false_r. reflexivity.
 Qed.
+
+Lemma take_blank_app head rest : forallb is_blank head = true ->
+  match rest with l :: _ => is_blank l = false | [] => True end ->
+  take_blank (head ++ rest) = (head, rest).
+Proof.
+  intros Hh Hr. induction head as [|l head IH]; cbn [app forallb] in *.
+  - destruct rest as [|l r]; [reflexivity|]. cbn [take_blank]. rewrite Hr. reflexivity.
+  - apply andb_true_iff in Hh as [Hl Hh]. cbn [take_blank]. rewrite Hl, (IH Hh). reflexivity.
+Qed.
+
+Lemma take_significant_app sig rest : forallb (fun l => negb (is_blank l)) sig = true ->
+  match rest with l :: _ => is_blank l = true | [] => True end ->
+  take_significant (sig ++ rest) = (sig, rest).
+Proof.
+  intros Hs Hr. induction sig as [|l sig IH]; cbn [app forallb] in *.
+  - destruct rest as [|l r]; [reflexivity|]. cbn [take_significant]. rewrite Hr. reflexivity.
+  - apply andb_true_iff in Hs as [Hl Hs]. apply negb_true_iff in Hl. cbn [take_significant]. rewrite Hl, (IH Hs). reflexivity.
+Qed.
+
+Lemma wf_record_inv r : wf_record r = true ->
+  wf_date (sr_date r) = true
+  /\ match sr_should r with Some (_, d) => wf_dur d = true | None => True end
+  /\ blank_text (sr_trail r) = true
+  /\ forallb summary_line_ok (sr_summary r) = true
+  /\ forallb wf_entry (sr_entries r) = true
+  /\ (count_open (sr_entries r) <= 1)%nat.
+Proof.
+  unfold wf_record. intros W.
+  apply andb_true_iff in W as [W H5]. apply andb_true_iff in W as [W H4]. apply andb_true_iff in W as [W H3].
+  apply andb_true_iff in W as [W H2]. apply andb_true_iff in W as [H0 H1].
+  repeat split; try assumption.
+  - destruct (sr_should r) as [[? ?]|]; [exact H1|exact I].
+  - apply Nat.leb_le. exact H5.
+Qed.
+
+Lemma headline_text_ok r : wf_record r = true -> text_ok (headline_text r) = true.
+Proof.
+  intros W0. destruct (wf_record_inv r W0) as (W & H3 & H2 & H1 & H0 & H).
+  unfold headline_text. rewrite !text_ok_app.
+  assert (T1 : text_ok (render_date (sr_date r)) = true).
+  { pose proof (render_date_chars _ W) as Dc. revert Dc. apply forallb_impl. intros c. unfold date_char, is_digit, scalar. lia. }
+  assert (T3 : text_ok (sr_trail r) = true).
+  { revert H2. apply forallb_impl. intros c. unfold scalar. lia. }
+  rewrite T1, T3. destruct (sr_should r) as [[extra d]|]; [|reflexivity].
+  unfold wf_dur in H3. apply andb_true_iff in H3 as [Sh _].
+  rewrite !text_ok_app. unfold spaces. rewrite text_ok_repeat by reflexivity.
+  assert (T2 : text_ok (render_dur d) = true).
+  { pose proof (render_dur_dur_chars d Sh) as Uc. revert Uc. apply forallb_impl. intros c. unfold dur_char, is_digit, scalar. lia. }
+  rewrite T2. reflexivity.
+Qed.
+
+Lemma is_blank_of_text l t : l_text l = utf8_encode t -> is_blank l = blank_text t.
+Proof. intros E. unfold is_blank. rewrite E. apply is_blank_encode. Qed.
+
+Lemma sig_not_blank r sig : wf_record r = true -> map l_text sig = map utf8_encode (record_texts r) ->
+  forallb (fun l => negb (is_blank l)) sig = true.
+Proof.
+  intros W. generalize (record_text_not_blank r). intros NB. specialize (fun t => NB t W).
+  revert sig NB. generalize (record_texts r). intros ts. induction ts as [|t ts IH]; intros sig NB M.
+  - destruct sig; [reflexivity|discriminate].
+  - destruct sig as [|l sig]; [discriminate|]. cbn [map] in M. injection M as Ml M.
+    cbn [forallb]. rewrite (is_blank_of_text l t Ml), (NB t (or_introl eq_refl)). cbn [negb andb].
+    apply IH; [|exact M]. intros t' Hin. apply NB. right. exact Hin.
+Qed.
+
+(* L2: a block made of a specification record's lines, with any blank lines around *)
+Theorem parse_record_spec r b head sig tail : wf_record r = true ->
+  b_lines b = head ++ sig ++ tail ->
+  forallb is_blank head = true -> forallb is_blank tail = true ->
+  map l_text sig = map utf8_encode (record_texts r) ->
+  parse_record b = Ok (inl (denote_record r)).
+Proof.
+  intros W Hb Hh Ht M.
+  pose proof (sig_not_blank r sig W M) as Hs.
+  destruct (wf_record_inv r W) as (W' & H3 & H2 & H1 & H0 & H).
+  change (map l_text sig = utf8_encode (headline_text r) ::
+            map utf8_encode (sr_summary r ++ flat_map (entry_texts (indent_text (sr_indent r))) (sr_entries r))) in M.
+  apply map_eq_cons in M as (hl & rest & -> & Mh & M).
+  assert (Htail : match tail with l :: _ => is_blank l = true | [] => True end).
+  { destruct tail; [trivial|]. cbn [forallb] in Ht. apply andb_true_iff in Ht as [Ht _]. exact Ht. }
+  assert (Hsig0 : is_blank hl = false).
+  { cbn [forallb] in Hs. apply andb_true_iff in Hs as [Hs _]. apply negb_true_iff in Hs. exact Hs. }
+  unfold parse_record, significant_lines. rewrite Hb.
+  rewrite (take_blank_app head ((hl :: rest) ++ tail) Hh Hsig0).
+  rewrite (take_significant_app (hl :: rest) tail Hs Htail).
+  rewrite Mh, (decode_encode _ (headline_text_ok r W)).
+  rewrite (parse_headline_spec (length head) r W' H3 H2).
+  rewrite map_app in M. apply map_eq_app in M as (ls_s & ls_e & -> & Ms & Me).
+  rewrite (parse_summary_lines_spec (sr_summary r) H1 ls_s (S (length head)) ls_e [] Ms).
+  cbn [app].
+  destruct ls_e as [|le ls_e'] eqn:Els.
+  - (* no entries *)
+    assert (En : sr_entries r = []).
+    { destruct (sr_entries r) as [|e es]; [reflexivity|]. cbn [flat_map entry_texts app map] in Me. discriminate. }
+    unfold denote_record. rewrite En. reflexivity.
+  - rewrite <- Els in *.
+    destruct (sr_entries r) as [|e es] eqn:Ee; [rewrite Els in Me; discriminate|].
+    assert (Hind : find_indentation (l_text le) = Some (indent_text (sr_indent r))).
+    { rewrite Els in Me. cbn [flat_map entry_texts app map] in Me. injection Me as Ml _.
+      cbn [forallb] in H0. apply andb_true_iff in H0 as [We _].
+      destruct (entry_line_bytes (sr_indent r) e We) as (c & x & Eb & Hc).
+      unfold first_tail in Eb. rewrite Ml.
+      change (utf8_encode (indent_text (sr_indent r) ++ render_value (se_value e) ++ first_tail e)
+              = indent_text (sr_indent r) ++ c :: x) in Eb.
+      change (find_indentation (utf8_encode (indent_text (sr_indent r) ++ render_value (se_value e) ++ first_tail e))
+              = Some (indent_text (sr_indent r))).
+      rewrite Eb. apply find_indentation_entry. exact Hc. }
+    rewrite Hind.
+    rewrite (parse_entries_spec (sr_indent r) (e :: es) H0 (length ls_e) _ ls_e [] Me (le_n _)).
+    + unfold denote_record. rewrite Ee. reflexivity.
+    + cbn [has_open_entry existsb]. lia.
+Qed.
